@@ -11,11 +11,14 @@ Definition fname (f : dfact) : text := match f with TyDecl m _ _ => m | TyAlias 
 Definition names (fs : list dfact) : list text := map fname fs.
 Definition bases (fs : list dfact) : list text := flat_map (fun f => match f with TyAlias _ b => [b] | _ => [] end) fs.
 
-(* unique names; no name is declared after it was used as a base *)
+(* the names of the simple / enumeration / structure declarations: those the transformation makes roots of *)
+Definition some_names (fs : list dfact) : list text := flat_map (fun f => match f with TyDecl m (Some _) _ => [m] | _ => [] end) fs.
+(* unique names; no simple / enumeration / structure type is declared after it was used as a base (aliases may come in any
+   order among themselves, and so may the declarations the transformation does not enter) *)
 Fixpoint sorted (fs : list dfact) : Prop :=
   match fs with
   | [] => True
-  | f :: r => (match f with TyAlias _ b => ~ In b (names r) | _ => True end) /\ sorted r
+  | f :: r => (match f with TyAlias _ b => ~ In b (some_names r) | _ => True end) /\ sorted r
   end.
 Definition wf (fs : list dfact) : Prop := NoDup (names fs) /\ sorted fs.
 
@@ -64,18 +67,18 @@ Proof.
 Qed.
 
 Lemma step_inv pre f rest s : inv pre s -> NoDup (names (pre ++ f :: rest)) -> sorted (pre ++ f :: rest) ->
-  (forall b, In b (bases pre) -> ~ In b (names (f :: rest))) ->
+  (forall b, In b (bases pre) -> ~ In b (some_names (f :: rest))) ->
   exists s', dstep s f = inl s' /\ inv (pre ++ [f]) s'.
 Proof.
   intros I Hnd Hso Hb. destruct I as [In1 In2 Ib Ie Ir].
   assert (Hfresh : ~ In (fname f) (names pre)).
   { rewrite names_app in Hnd. cbn [names map] in Hnd. apply NoDup_remove_2 in Hnd. intro H. apply Hnd. apply in_or_app. left. exact H. }
-  assert (Hnb : ~ In (fname f) (bases pre)) by (intro H; apply (Hb _ H); left; reflexivity).
-  assert (Hnone : node_data (d_nodes s) (fname f) = None).
-  { destruct (node_data (d_nodes s) (fname f)) eqn:E; [|reflexivity]. exfalso.
-    destruct (In1 (fname f)) as [H | H]; [rewrite E; discriminate | apply Hfresh; exact H | apply Hnb; exact H]. }
   destruct f as [n [k|] p|n b]; cbn [fname] in *.
   - (* a declared simple / enumeration / structure type: a new node and a root of its kind *)
+    assert (Hnb : ~ In n (bases pre)) by (intro H; apply (Hb _ H); left; reflexivity).
+    assert (Hnone : node_data (d_nodes s) n = None).
+    { destruct (node_data (d_nodes s) n) eqn:E; [|reflexivity]. exfalso.
+      destruct (In1 n) as [H | H]; [rewrite E; discriminate | apply Hfresh; exact H | apply Hnb; exact H]. }
     eexists. cbn [dstep]. rewrite Hnone. split; [reflexivity|]. constructor; cbn [d_nodes d_edges d_roots].
     + intros m Hm. rewrite node_data_app in Hm. rewrite names_app, bases_app. cbn [names map bases flat_map app].
       destruct (node_data (d_nodes s) m) eqn:E.
@@ -126,12 +129,12 @@ Proof.
 Qed.
 
 Lemma sorted_app_inv pre f rest : sorted (pre ++ f :: rest) -> sorted (f :: rest) /\
-  (forall b, In b (bases pre) -> ~ In b (names (f :: rest))).
+  (forall b, In b (bases pre) -> ~ In b (some_names (f :: rest))).
 Proof.
   induction pre as [|g pre IH]; cbn [app sorted]; [intro H; split; [exact H | intros b []]|].
   intros (Hg & Hs). destruct (IH Hs) as (H1 & H2). split; [exact H1|]. intros b Hb. cbn [bases flat_map] in Hb. apply in_app_or in Hb.
   destruct Hb as [Hb | Hb]; [|apply H2; exact Hb]. destruct g as [m k p|m b']; [destruct Hb|]. destruct Hb as [<- | []].
-  intro H. apply Hg. rewrite names_app. apply in_or_app. right. exact H.
+  intro H. apply Hg. unfold some_names. rewrite flat_map_app. apply in_or_app. right. exact H.
 Qed.
 
 Lemma walk_inv rest : forall pre s, inv pre s -> NoDup (names (pre ++ rest)) -> sorted (pre ++ rest) ->
